@@ -28,7 +28,9 @@ def drive : List String → String
   | ["copy", p, c, a, t, p2, c2, a2] =>
     (match dec p, dec c, decList a, C05.decTags t, dec p2, dec c2, decList a2 with
      | some p, some c, some a, some t, some p2, some c2, some a2 =>
-       showLine (takeLine none (ctorCopy ⟨p, c, a, t⟩ p2 c2 a2))
+       (match ctorCopy ⟨p, c, a, t⟩ p2 c2 a2 with
+        | .assertFail => "assert"
+        | .ok m => showLine (takeLine none m))
      | _, _, _, _, _, _, _ => "bad-op")
   | ["reply", cfg, s, reprS, pn, pr, no, to, act, err, strip, replyTo, nick, pubs] =>
     (match cfg.toList.map (· == '1'), dec s, dec reprS, decOB pn, decOB pr, decOB no, decOpt to, decB act, decB err,
